@@ -136,7 +136,7 @@ class EnumMember:
         return self.value.__divmod__(other.value if isinstance(other, EnumMember) else other)
 
     def __pow__(self, other, *args):
-        return self.value.__pow__(other, *args)
+        return self.value.__pow__(other.value if isinstance(other, EnumMember) else other, *args)
 
     def __lshift__(self, other):
         return self.value.__lshift__(other.value if isinstance(other, EnumMember) else other)
@@ -166,7 +166,7 @@ class EnumMember:
         return self.value.__rdivmod__(other.value if isinstance(other, EnumMember) else other)
 
     def __rpow__(self, other, *args):
-        return self.value.__rpow__(other, *args)
+        return self.value.__rpow__(other.value if isinstance(other, EnumMember) else other, *args)
 
     def __rlshift__(self, other):
         return self.value.__rlshift__(other.value if isinstance(other, EnumMember) else other)
